@@ -21,7 +21,7 @@ PROPS = {
     },
     "C02": {
         "level": "proof",
-        "units": ["angle", "jd", "astro", "top", "raw"],
+        "units": ["angle", "jd", "astro", "top", "raw", "ptdt"],
         "rule": "falsifier: oracle geometric altitude at the literal reported instant vs -0.833 +- 0.05 deg, |lat|<=60; before/after noon read modulo 24 h; weather over its box moves only Shurooq/Maghrib by < 60 s; non-trivial = distinct (event, date, lat)",
         "trusted": ["size of the Newton correction and of the refraction term is not proved", "independent ephemeris (oracle.rs)"],
         "assumptions": COMMON_ASSUME,
@@ -121,7 +121,7 @@ PROPS = {
     },
     "C14": {
         "level": "proof",
-        "units": ["daterange", "civil"],
+        "units": ["daterange", "civil", "rng"],
         "rule": "falsifier: (start,end,k) triples; non-trivial = distinct (span,k) with span>=0 and k>=2",
         "trusted": ["chrono date arithmetic modelled as integer day numbers (validated by unit `civil`)"],
         "assumptions": COMMON_ASSUME,
